@@ -145,7 +145,31 @@ fn mutate(u: &mut Unstructured, s: &str) -> arbitrary::Result<String> {
     const INS: &[char] = &['0', '1', '5', '7', '9', '*', ',', '-', '/', ' ', 'a', 'n', 'M', 'Z', '+', '\t', 'é', '\u{a0}'];
     let mut cs: Vec<char> = s.chars().collect();
     let pos = if cs.is_empty() { 0 } else { u.int_in_range(0..=cs.len() - 1)? };
-    match u.int_in_range(0..=6u8)? {
+    match u.int_in_range(0..=8u8)? {
+        7 | 8 => {
+            // a name where it does not belong: one item of one field replaced by a month or weekday
+            // name (any case) - month names in the weekday field, weekday names in the month field,
+            // either in a numeric field; or a prefix / extension of a name
+            let mut fields: Vec<String> = s.split_whitespace().map(|f| f.to_string()).collect();
+            if !fields.is_empty() {
+                let k = u.int_in_range(0..=fields.len() - 1)?;
+                let base = if u.ratio(1, 2)? { *u.choose(&MONTHS)? } else { *u.choose(&DAYS)? };
+                let name = match u.int_in_range(0..=5u8)? {
+                    0 => base[..2].to_string(),
+                    1 => format!("{}{}", base, u.choose(&["e", "day", "s", "1", "."])?),
+                    _ => rand_case(u, base)?,
+                };
+                let mut items: Vec<String> = fields[k].split(',').map(|i| i.to_string()).collect();
+                let j = u.int_in_range(0..=items.len() - 1)?;
+                items[j] = match (items[j].split_once('-'), u.int_in_range(0..=2u8)?) {
+                    (Some((a, _)), 0) => format!("{}-{}", a, name),
+                    (Some((_, b)), 1) => format!("{}-{}", name, b),
+                    _ => name,
+                };
+                fields[k] = items.join(",");
+                return Ok(fields.join(" "));
+            }
+        }
         0 if !cs.is_empty() => {
             cs.remove(pos);
         }
@@ -214,6 +238,49 @@ fn probe(field_text: &str, kind: FieldKind) -> Result<Vec<u32>, String> {
     out.sort();
     out.dedup();
     Ok(out)
+}
+
+/// expressions a lossy cache key could confuse with `expr` (the last one parsed is the closest)
+fn lossy_key_variants(expr: &str) -> Vec<String> {
+    let fields: Vec<&str> = expr.split_whitespace().collect();
+    let mut out = Vec::new();
+    if fields.len() != 5 || expr.len() > 400 {
+        return out;
+    }
+    // two fields swapped; letter case flipped
+    let mut sw: Vec<&str> = fields.clone();
+    sw.swap(0, 1);
+    out.push(sw.join(" "));
+    let mut sw: Vec<&str> = fields.clone();
+    sw.swap(2, 3);
+    out.push(sw.join(" "));
+    if expr.chars().any(|ch| ch.is_ascii_alphabetic()) {
+        out.push(expr.chars().map(|ch| if ch.is_ascii_lowercase() { ch.to_ascii_uppercase() } else { ch.to_ascii_lowercase() }).collect());
+    }
+    // one digit changed
+    if let Some((i, ch)) = expr.char_indices().find(|(_, ch)| ch.is_ascii_digit()) {
+        let mut v = expr.to_string();
+        let d = ((ch as u8 - b'0' + 1) % 10 + b'0') as char;
+        v.replace_range(i..i + 1, &d.to_string());
+        out.push(v);
+    }
+    // a field boundary moved by one character, in both directions, at every boundary
+    for k in 0..4 {
+        let (a, b) = (fields[k], fields[k + 1]);
+        if a.len() > 1 && a.is_ascii() {
+            let mut f: Vec<String> = fields.iter().map(|x| x.to_string()).collect();
+            f[k] = a[..a.len() - 1].to_string();
+            f[k + 1] = format!("{}{}", &a[a.len() - 1..], b);
+            out.push(f.join(" "));
+        }
+        if b.len() > 1 && b.is_ascii() {
+            let mut f: Vec<String> = fields.iter().map(|x| x.to_string()).collect();
+            f[k] = format!("{}{}", a, &b[..1]);
+            f[k + 1] = b[1..].to_string();
+            out.push(f.join(" "));
+        }
+    }
+    out
 }
 
 pub struct Denotation;
@@ -314,6 +381,41 @@ impl Prop for Denotation {
             }
             let now = mk_dt(start as i128 * 1_000_000_000);
             let now_min = start.div_euclid(60);
+            // parsing is a function of the text: expressions that differ from this one only in
+            // where the field boundaries fall, in one digit, in the order of two fields or in letter
+            // case are parsed directly before it (results ignored) - a memo keyed on anything less
+            // than the text would hand back their sets
+            let variants = lossy_key_variants(&c.expr);
+            if !variants.is_empty() {
+                cx.label("parsed_after_look-alike_expressions");
+                let first = sets.next_after(now_min, 3300).map(|w| w as i128 * 60 * 1_000_000_000);
+                let pick = (start as usize ^ c.expr.len()) % variants.len();
+                for j in 0..variants.len().min(4) {
+                    let v = &variants[(pick + j) % variants.len()];
+                    cx.extra_evals += 1;
+                    let r = catch(|| {
+                        let _ = CronSchedule::parse(v);
+                        let mut s = CronSchedule::parse(&c.expr).unwrap();
+                        astrolabe::verif::set_now(Some(now));
+                        let g = s.next().map(|d| rd_dt(&d));
+                        astrolabe::verif::set_now(None);
+                        g
+                    });
+                    astrolabe::verif::set_now(None);
+                    match r {
+                        Err(p) => return fail("c16.next_panic", format!("first result of {:?} parsed right after {:?} returns", c.expr, v), p.short()),
+                        Ok(g) => {
+                            if first.is_some() && g != first {
+                                return fail(
+                                    "c16.depends_on_previous_call",
+                                    format!("first result of {:?} after {} when {:?} was parsed directly before = {}", c.expr, fmt_instant(start as i128 * 1_000_000_000), v, fmt_instant(first.unwrap())),
+                                    format!("{:?}", g.map(fmt_instant)),
+                                );
+                            }
+                        }
+                    }
+                }
+            }
             let r = catch(|| {
                 let mut s = CronSchedule::parse(&c.expr).unwrap();
                 astrolabe::verif::set_now(Some(now));
